@@ -27,7 +27,7 @@ def clean():
 
 
 def run_check(pid, tier, seed=0):
-    r = sh('cd %s && %s VERIF_SEED=%d ./check %s --tier %s' % (HERE, TARGET['env'], seed, pid, tier))
+    r = sh('cd %s && %s VERIF_SEED=%d ./check %s --tier %s' % (TARGET.get('verif', HERE), TARGET['env'], seed, pid, tier))
     vio = [l for l in r.stdout.splitlines() if l.startswith('VIOLATION')]
     return r.returncode, vio, r.stdout[-600:]
 
@@ -41,6 +41,7 @@ def main():
     ap.add_argument('--only', default=None)
     ap.add_argument('--all-checks', action='store_true', help='run all 17 checks against every mutant (which checks catch which change)')
     ap.add_argument('--seeds', default='0', help='comma-separated VERIF_SEED values for --seeded (a mutant counts as caught when every seed fires)')
+    ap.add_argument('--checks', default=None, help='comma-separated check ids for --benign (default: all 17)')
     ap.add_argument('--in-repo', action='store_true', help='apply the patches to /repo itself (git apply ... git checkout -- .) instead of a scratch worktree')
     args = ap.parse_args()
     import tempfile, shutil
@@ -52,6 +53,18 @@ def main():
         assert r.returncode == 0, r.stderr
         TARGET['dir'] = wt
         TARGET['env'] = 'PVMON_REPO_SRC=%s/src PVMON_OUT_DIR=%s/out' % (wt, scratch)
+        # frozen copy of the monitors: edits made in /verif while a long self-test runs must not leak into it
+        snap = os.path.join(scratch, 'verif')
+        os.makedirs(snap)
+        for item in ('check', 'pvmon', 'known_findings.json', 'properties.jsonl'):
+            src = os.path.join(HERE, item)
+            if os.path.isdir(src):
+                shutil.copytree(src, os.path.join(snap, item), ignore=shutil.ignore_patterns('__pycache__'))
+            else:
+                shutil.copy2(src, os.path.join(snap, item))
+        if os.path.isdir(os.path.join(HERE, '.deps')):
+            os.symlink(os.path.join(HERE, '.deps'), os.path.join(snap, '.deps'))
+        TARGET['verif'] = snap
     if not (args.fixes or args.seeded or args.benign):
         args.fixes = args.seeded = True
     assert clean(), '/repo working tree is not clean'
@@ -118,7 +131,7 @@ def main():
                     print('ERROR applying benign', name, r.stderr[-200:])
                     continue
                 alarms = {}
-                for p in allids:
+                for p in (args.checks.split(',') if args.checks else allids):
                     rc, vio, tail = run_check(p, args.tier, seed=1)
                     if rc != 0:
                         alarms[p] = {'exit': rc, 'violations': [v[:300] for v in vio[:3]], 'tail': tail[-300:]}
